@@ -42,7 +42,10 @@ THEOREMS = {
             ("XV.Peg.parse_gate_mono", "XonshVerif.Proofs.PegGate"), ("XV.Peg.ginv_all", "XonshVerif.Proofs.PegGate"),
             ("XV.Peg.parse_verbose", "XonshVerif.Properties.C15"), ("XV.Peg.execRule_verbose", "XonshVerif.Properties.C15"), ("XV.Peg.vinv", "XonshVerif.Proofs.PegVerbose")],
     "C17": [("XV.Peg.lookahead_consumes_nothing", "XonshVerif.Properties.C17"), ("XV.Peg.not_is_complement", "XonshVerif.Properties.C17"), ("XV.Peg.ordered_choice_first", "XonshVerif.Properties.C17"),
-            ("XV.Peg.ordered_choice_next", "XonshVerif.Properties.C17"), ("XV.Peg.empty_choice_fails", "XonshVerif.Properties.C17"), ("XV.Peg.memo_hit_is_constant", _PC)],
+            ("XV.Peg.ordered_choice_next", "XonshVerif.Properties.C17"), ("XV.Peg.empty_choice_fails", "XonshVerif.Properties.C17"), ("XV.Peg.memo_hit_is_constant", _PC)] + [("XV.Peg." + n, "XonshVerif.Properties.C17") for n in (
+                "star_continues_after_success", "star_stops_at_first_failure", "plus_requires_one", "gather_needs_first_element", "gather_gives_back_dangling_separator",
+                "gather_stops_without_separator", "cut_commits", "without_cut_next_alternative", "forced_raises_on_failure", "optional_never_fails",
+                "memo_second_call_is_the_first_result", "inlined_choice_equiv")] + [("XV.Peg.parse_total", "XonshVerif.Proofs.PegTotal"), ("XV.Peg.execRule_fuel_mono", "XonshVerif.Proofs.PegMono")],
     "C18": [("XV.Peg.no_multi_edge_on_cycle", _PC), ("XV.Peg.memo_hit_is_constant", _PC)],
     "C02": _INERT,
     "C05": _INERT,
